@@ -192,7 +192,7 @@ def main():
     for res in core.parallel(dispatch, specs):
         chk.absorb(res)
     chk.finish(RULE, floor={"runs:release": 40, "runs:debug": 40, "chains_with_gap_sum_above_2^32": 4, "mean_multisets_sum_above_2^32": 500},
-               assumptions=["no block has timestamp 0 (the code uses 0 as 'no previous block'); heights stay below 64*210000; value sums stay below 2^64",
+               assumptions=["no block has timestamp 0 (the code uses 0 as 'no previous block'); value sums stay below 2^64",
                             "floats are compared against the exact rational rounded to the printed precision, accepting the neighbouring last digit",
                             "only scripts with a pinned type are used (C05/C06 own the classification)"])
 
